@@ -55,7 +55,7 @@ def gen(
     conds=(1.0, 1e2),
     info_kinds=("spd", "spd", "blockdiag", "diag"),
     world=(1.0,),
-    features=("parallel", "reversed", "permute", "ids", "multifixed", "custom", "rn_lm_offsets"),
+    features=("parallel", "reversed", "permute", "ids", "multifixed", "custom", "rn_lm_offsets", "quat-signs"),
     fixed_mode="wellposed",
     rot_step=1.0,
     custom_flavour="ana",
@@ -134,8 +134,12 @@ def gen(
         nobs = rnd.randint(1, min(3, npose))
         for i in rnd.sample(range(npose), nobs):
             if base in ("se2", "se3"):
-                ocls = rnd.choice(["identity", "generic", "generic"])
+                ocls = rnd.choice(["identity", "generic", "generic", "pure-rotation", "pure-translation"])
                 off = R.identity(base) if ocls == "identity" else rnd_pose(base, w)
+                if ocls == "pure-rotation":
+                    off = [0.0] * R.PDIM[base] + list(off[R.PDIM[base]:])
+                elif ocls == "pure-translation":
+                    off = list(off[: R.PDIM[base]]) + list(R.identity(base)[R.PDIM[base]:])
             else:
                 off = [rnd.uniform(-w, w) for _ in range(R.PDIM[base])] if feats["rn_lm_offsets"] else [0.0] * R.PDIM[base]
             T = R.inv(base, R.mul(base, truth[i], off))
@@ -205,6 +209,16 @@ def gen(
     rnd.shuffle(edges) if feats["permute"] else None
     for e in edges:
         e["ids"] = [ids[i] for i in e.pop("ix")]
+    if base == "se3" and "quat-signs" in features:
+        # q and -q are the same rotation: store a random representative everywhere (measurements, offsets, vertices)
+        def flip(pd):
+            if isinstance(pd, dict) and pd["k"] == "se3" and rnd.random() < 0.5:
+                pd["v"][3:] = [-x for x in pd["v"][3:]]
+        for e in edges:
+            flip(e["z"])
+            flip(e.get("off"))
+        for v in verts:
+            flip(v["p"])
     return {
         "base": base,
         "verts": verts,
